@@ -12,7 +12,11 @@ DATA, DATA_OTHER, TUNNEL, ERROR = 9, 5, 4, 3
 
 
 def tls_like(r, n):
-    return b'\x16\x03\x01\x00' + bytes(r.randrange(256) for _ in range(max(0, n - 4)))
+    # what clients really send into a tunnel: a TLS hello, or a length-prefixed / banner protocol - payloads whose first byte is
+    # NUL, LF or CR (PostgreSQL SSLRequest, Kafka, DNS over TCP, NetBIOS) and text banners that are not HTTP
+    start = r.pick([b'\x16\x03\x01\x00', b'\x16\x03\x01\x00', b'\x00\x00\x00\x08\x04\xd2\x16\x2f', b'\x00', b'\n', b'\r\n', b'\n\n\x00', b'\x00\n',
+                    b'SSH-2.0-OpenSSH_9.2\r\n', b'\x05\x01\x00', b'\x80\x00'])
+    return start + bytes(r.randrange(256) for _ in range(max(0, n - len(start))))
 
 
 def cut(r, data, style):
